@@ -498,3 +498,41 @@ func Ops1(fns []string, sfx string, s []byte, emit func(impl.Op)) {
 		emit(impl.Op{Fn: fn, Cfg: "b" + sfx, Args: []string{hs}})
 	}
 }
+
+// ---- Rabin-Karp hash collisions ---------------------------------------------------------------
+
+// Collisions returns pairs of distinct 2-rune windows with the same rolling hash
+// (h = r0*prime + r1 mod 2^32) made of valid, caseless code points (fold = identity, checked by
+// the caller-supplied predicate).  A search strategy that trusts the hash without verifying the
+// window reports one as a match of the other.
+func Collisions(prime uint32, caseless func(rune) bool, limit int) [][2][2]rune {
+	var out [][2][2]rune
+	for d0 := int64(1); d0 < 0x10F000 && len(out) < limit; d0++ {
+		d1 := int64(int32(uint32(d0) * prime)) // r1' = r1 + d1 compensates r0' = r0 - d0
+		if d1 > 0xFFFF || d1 < -0xFFFF || d1 == 0 {
+			continue
+		}
+		// choose r0 > d0, r1 so that all four runes are valid and caseless
+		for _, r0 := range []rune{0x4E00 + rune(d0), 0x1E100, 0x20000 + rune(d0%0x1000), 0xAC00 + rune(d0)} {
+			r0p := r0 - rune(d0)
+			for _, r1 := range []rune{0x4E00, 0x5000, 0xAC00, 0x3042} {
+				r1p := r1 + rune(d1)
+				if r0p <= 0x7F || r1p <= 0x7F || !utf8.ValidRune(r0) || !utf8.ValidRune(r0p) || !utf8.ValidRune(r1p) {
+					continue
+				}
+				if r0 == 0xFFFD || r0p == 0xFFFD || r1p == 0xFFFD {
+					continue
+				}
+				if !caseless(r0) || !caseless(r0p) || !caseless(r1) || !caseless(r1p) {
+					continue
+				}
+				if uint32(r0)*prime+uint32(r1) != uint32(r0p)*prime+uint32(r1p) {
+					continue
+				}
+				out = append(out, [2][2]rune{{r0, r1}, {r0p, r1p}})
+				break
+			}
+		}
+	}
+	return out
+}
